@@ -351,6 +351,19 @@ def build_templates():
     TT["u_latex"] = T(lambda A, p: (A["x"].units.latex_repr, str(A["x"].units), repr(A["x"].units)), ("x",), cat="unit")
     TT["u_copy"] = T(lambda A, p: (A["x"].units.copy(), copy.deepcopy(A["x"].units)), ("x",), cat="unit")
     TT["u_same_dims"] = T(lambda A, p: A["x"].units.same_dimensions_as(A["y"].units), ("x", "y"), cat="unit")
+    # Unit arithmetic that is always refused, and constructors given their operands' data
+    TT["u_add"] = T(lambda A, p: A["x"].units + A["y"].units, ("x", "y"), cat="unit")
+    TT["u_sub"] = T(lambda A, p: A["x"].units - A["y"].units, ("x", "y"), cat="unit")
+    TT["u_div_obj"] = T(lambda A, p: A["x"].units / "cm", ("x",), cat="unit")
+    TT["u_rdiv_scalar"] = T(lambda A, p: p["c"] / A["x"].units, ("x",), cat="unit", params=("c",))
+    TT["u_pow_u"] = T(lambda A, p: A["x"].units ** A["y"].units, ("x", "y"), cat="unit")
+    TT["u_has_equiv"] = T(lambda A, p: A["x"].units.has_equivalent(p["equiv"]), ("x",), cat="unit", params=("equiv",))
+    TT["u_list_equiv"] = T(lambda A, p: A["x"].units.list_equivalencies(), ("x",), cat="unit")
+    TT["uq_from_x"] = T(lambda A, p: unyt.unyt_quantity(A["x"], A["x"].units), ("x",), cat="copy")
+    TT["uq_from_str"] = T(lambda A, p: unyt.unyt_quantity.from_string(str(A["x"].sum())), ("x",), cat="copy")
+    TT["uconcatenate_mixed"] = T(lambda A, p: unyt.uconcatenate([A["x"], np.asarray(A["y"])]), ("x", "y"), cat="func")
+    TT["np.where1"] = T(lambda A, p: np.where(np.asarray(A["x"]) > 0, A["x"]), ("x",), cat="func")
+    TT["allclose_units"] = T(lambda A, p: unyt.allclose_units(A["x"], A["y"], rtol=A["y"]), ("x", "y"), cat="func")
     return TT
 
 
@@ -1032,6 +1045,10 @@ class Sim18:
             # integer image: the two routes legitimately round differently
             # (that is C17's subject); counted, not compared
             self.oracleC["skipped_int"] += 1
+        elif int_payload and _subnormal_or_nonfinite(got, want):
+            # DESIGN 2.10: an integer image converted through a same-width float whose conversion factor is
+            # sub-normal there (int16 erg -> J in float16) legitimately differs between the two routes
+            self.oracleC["skipped_int"] += 1
         else:
             exact = got.tobytes() == want.tobytes() or same_numbers(got.ravel().tolist(), want.ravel().tolist())
             if not exact:
@@ -1055,6 +1072,18 @@ class Sim18:
                           "copy": {"vals": [repr(v) for v in want.ravel().tolist()],
                                    "units": unit_tuple(res2.units)[:4] if hasattr(res2, "units") else None, "dtype": str(want.dtype)}},
                          [t.cat, name.split(":")[0] if ":" in name else name, ",".join(x for x in (bad, ub) if x)])
+
+
+def _subnormal_or_nonfinite(*arrays):
+    for a in arrays:
+        a = np.asarray(a)
+        if a.dtype.kind not in "fc" or a.size == 0:
+            continue
+        mag = np.abs(a).ravel()
+        tiny = np.finfo(mag.dtype).tiny
+        if (~np.isfinite(mag)).any() or ((mag > 0) & (mag < tiny)).any():
+            return True
+    return False
 
 
 def run_ops(ops, cfg, chan=None, oracles=True):
